@@ -1346,3 +1346,19 @@ MA('C06', 'Reduction derivative taken at the first component', 'odl/operator/psp
    'return ReductionOperator(*[op.derivative(xi) for op, xi in zip(self.operators, x)])',
    'return ReductionOperator(*[op.derivative(x[0]) for op, xi in zip(self.operators, x)])',
    'ReductionOperator[')
+M('C03', 'left vector multiple scales the inner result in place', OPR,
+  """        if out is None:
+            return self.operator(x) * self.vector
+        else:
+            self.operator(x, out=out)
+            out *= self.vector
+""", """        if out is None:
+            out = self.operator(x)
+        else:
+            self.operator(x, out=out)
+        out *= self.vector
+        return out
+""", 'C03-R11')
+M('C03', 'matrix operator uses dot(out=) for every axis-0 contraction', TOPS,
+  "            elif self.range.ndim == 1:", "            elif self.axis == 0:",
+  'MatrixOperator[3-d domain, axis=0]')
